@@ -125,3 +125,52 @@ def traffic_segment_round_trips_bounded(chunk):
 from contracts import c01_transfer
 harness(prop="C19", target="geckolib.utils.simulator:GeckoSimulator._on_status_block", loops=["sim_chain_loop"],
         name="simulator_serves_any_range_of_the_block_unchanged")(c01_transfer.simulator_produces_the_chain)
+
+
+# ------------------------------------------------------------------ writer side (shell)
+from geckolib.utils.shell import GeckoShell
+import geckolib.utils.shell as shell_module
+
+
+class SpaFields:
+    revision = "19.00"
+    intouch_version_en = "70 v14.1"
+    intouch_version_co = "69 v11.2"
+    pack = "inYJ"
+    version = "177 v3.4"
+    config_number = 5
+    config_version = 62
+    log_version = 59
+    pack_type = 10
+
+
+class FacadeOfShell:
+    spa = SpaFields()
+
+
+@harness(prop="C19", target="geckolib.utils.shell:GeckoShell.version_strings")
+def header_lines_carry_each_field_under_its_own_label(cfg: int, log: int, ptype: int, number: int):
+    """the header the shell writes: one line per field, each field under the label the parser's pattern table looks for
+    (all fields pairwise different, so any mix-up of two fields is visible); versions are arbitrary"""
+    requires(both(0 <= cfg, cfg <= 255, 0 <= log, log <= 255, 0 <= ptype, ptype <= 255, 0 <= number, number <= 65535))
+    sh = new(GeckoShell)
+    sh.facade = FacadeOfShell()
+    SpaFields.config_version = cfg
+    SpaFields.log_version = log
+    SpaFields.pack_type = ptype
+    SpaFields.config_number = number
+    lines = sh.version_strings
+    ensures("nine-header-lines", len(lines) == 9)
+    ensures("library-version-line", lines[0] == "geckolib version " + shell_module.VERSION)
+    ensures("firmware-lines", both(lines[2] == "intouch version EN 70 v14.1", lines[3] == "intouch version CO 69 v11.2"))
+    ensures("spa-pack-line", lines[4] == "Spa pack inYJ 177 v3.4")
+    ensures("config-version-line", lines[6] == f"Config version {cfg}")
+    ensures("log-version-line", lines[7] == f"Log version {log}")
+    ensures("pack-type-line", lines[8] == f"Pack type {ptype}")
+    ensures("configuration-number-line", lines[5] == f"Low level configuration # {number}")
+    # what the parser's handlers make of the decimal renderings (regex capture itself: ASSUMED / bounded native check)
+    s = GeckoSnapshot()
+    s._re_config_version((str(cfg),))
+    s._re_log_version((str(log),))
+    ensures("versions-parse-back", both(s.config_version == cfg, s.log_version == log))
+    cover("config-differs-from-log", cfg != log)
